@@ -10,6 +10,15 @@
 (*   upo      "T" | "F" | "N"   use_pull_operations of the connection      *)
 (*   srv      BOOLEAN  the server supports pull operations right now       *)
 (*   fq, coe  BOOLEAN  FilterQuery(Language) / ContinueOnError supplied    *)
+(*   fqc      class of the filter arguments (fq = (fqc # "none")):         *)
+(*            "none"    neither FilterQueryLanguage nor FilterQuery        *)
+(*            "fql"     FilterQueryLanguage='DMTF:FQL' + FilterQuery       *)
+(*            "badlang" a language the server does not support + a query   *)
+(*            "qonly"   FilterQuery without FilterQueryLanguage            *)
+(*            "lonly"   FilterQueryLanguage='DMTF:FQL' without FilterQuery *)
+(*   ot       class of OperationTimeout: "none" (None) | "zero" (0) |      *)
+(*            "small" (1..server maximum) | "big" (above the server        *)
+(*            maximum, 40 for the mock server)                             *)
 (*   moc      "ok" | "zero" | "neg" | "none" | "badtype"                   *)
 (*   mocn     the MaxObjectCount value when moc = "ok"                     *)
 (*   trad     the traditional result (object ids), tradok                  *)
@@ -38,6 +47,9 @@ F(name, holds) == IF holds THEN {} ELSE {name}
 NOT_SUPPORTED == 7
 FAILED == 1
 
+FiltClasses == {"none", "fql", "badlang", "qonly", "lonly"}
+OtClasses == {"none", "zero", "small", "big"}
+
 BadMoc(e) == e.moc # "ok"
 UsesPull(e) == e.upo = "T" \/ (e.upo = "N" /\ e.srv)
 Fallback(e) == ~UsesPull(e)
@@ -54,6 +66,24 @@ MustRaise(e) ==
             {"CIMError"} \cup (IF e.fq \/ e.coe THEN {"ValueError"} ELSE {})
   ELSE {}
 
+(* A pull-capable server that is asked to open an enumeration may reject   *)
+(* the open parameters: "the server may reject the proposed value          *)
+(* [OperationTimeout], causing a CIMError"; a filter needs "the pull       *)
+(* operations and their filtering capability" of the server (the mock      *)
+(* server documents: FilterQuery without language -> INVALID_PARAMETER,    *)
+(* language other than DMTF:FQL -> QUERY_LANGUAGE_NOT_SUPPORTED,           *)
+(* OperationTimeout above its maximum -> INVALID_PARAMETER).  Which status *)
+(* code is left open; that the rejection surfaces as the CIMError is       *)
+(* documented.  When FilterQuery/ContinueOnError was given the documented  *)
+(* ValueError of the traditional fallback is admissible as well (the       *)
+(* requirement does not say which path a connection is on).  The rejection *)
+(* depends on the current configuration only, so a fresh connection is     *)
+(* rejected as well.  A server WITHOUT pull never gets here: MustRaise and *)
+(* the fallback clauses apply whatever the open parameters are.            *)
+OpenRejectable(e) ==
+  UsesPull(e) /\ e.srv /\ (e.fqc \in {"badlang", "qonly"} \/ e.ot # "none")
+RejectErrs(e) == {"CIMError"} \cup (IF e.fq \/ e.coe THEN {"ValueError"} ELSE {})
+
 (* the harness reports whether the injected server fault actually fired    *)
 (* during this call (it depends on how the server batches its responses)   *)
 FaultHits(e) == e.faulted
@@ -67,9 +97,19 @@ NeverStarted(e) == e.fam # 7 /\ e.consume # "exhaust" /\ e.k = 0
 
 Fails(s, e) ==
   LET mr == MustRaise(e) IN
+  F("Trace.KnownArgumentClasses",
+    e.fqc \in FiltClasses /\ e.ot \in OtClasses /\ e.fq = (e.fqc # "none"))
+  \cup
   IF NeverStarted(e)
   THEN F("Iter.UnstartedIteratorDoesNothing",
          e.res = "done" /\ e.yielded = <<>>)
+       \cup F("NoLeak.NoContextLeftOpen", e.nctx <= 0)
+  ELSE IF ~BadMoc(e) /\ OpenRejectable(e) /\ e.res # "done" /\ e.fresh # "done"
+  THEN \* the server rejected the open parameters (or, ~tradok, the
+       \* operation itself: the same error classes are admissible)
+       F("Iter.RejectedOpenSurfacesAsCIMError.filt=" \o e.fqc \o ".ot=" \o e.ot,
+         e.res \in RejectErrs(e))
+       \cup F("Iter.NothingYieldedBeforeDocumentedError", e.yielded = <<>>)
        \cup F("NoLeak.NoContextLeftOpen", e.nctx <= 0)
   ELSE IF mr # {}
   THEN F("Iter.RaisesDocumentedError", e.res \in mr)
